@@ -136,8 +136,14 @@ func (gc *primaryGC) gc(ctx context.Context, lowUsePercent int64, timeLimit time
 		defer cancel()
 	}
 
+	// The current primary file number is written by flushBlock with flushLock
+	// held, so read it with the lock held.
+	gc.primary.flushLock.Lock()
+	lastFileNum := gc.primary.fileNum
+	gc.primary.flushLock.Unlock()
+
 	// GC each unvisited file in order.
-	for fileNum := header.FirstFile; fileNum != gc.primary.fileNum; fileNum++ {
+	for fileNum := header.FirstFile; fileNum != lastFileNum; fileNum++ {
 		if _, ok := gc.visited[fileNum]; ok {
 			continue
 		}
